@@ -14,27 +14,6 @@ import XzVerif.Lemmas.AllocWorld
 namespace XzVerif.C10
 open XzVerif.Alloc
 
-/-- a sane heap to start from: whatever else the application has allocated (`live`), nothing freed wrongly -/
-def HeapWF (h : Heap) : Prop := h.bad = false ∧ h.live.Nodup ∧ ∀ i ∈ h.live, i < h.next
-
-theorem good_of_wf {h : Heap} (hw : HeapWF h) : Good h ([] ++ h.live) := by
-  obtain ⟨h1, h2, h3⟩ := hw
-  refine ⟨h1, fun _ => rfl, fun i => ?_, fun i hi => ?_⟩
-  · exact List.nodup_iff_count_le_one.mp h2 i
-  · exact List.count_eq_zero_of_not_mem (fun hm => by have := h3 i hm; simp at hi; omega)
-
-/-- the 15 public initialisation functions on a `lzma_stream` -/
-def isInit : Op → Bool
-  | .streamEncoder _ | .aloneEncoder _ | .microEncoder _ | .rawEncoder _ | .rawDecoder _ | .blockEncoder _
-  | .blockDecoder _ | .indexEncoder | .streamDecoder | .autoDecoder | .aloneDecoder | .lzipDecoder | .microDecoder
-  | .indexDecoder | .fileInfoDecoder => true
-  | _ => false
-
-/-- calls that work on the handle only (they get no caller-owned index or filter array to write to) -/
-def isHandleOp : Op → Bool
-  | .encode .. | .filtersUpdate _ | .lzmaEnd => true
-  | op => isInit op
-
 variable (S : Sizes)
 
 /-! ### the general invariant -/
@@ -82,26 +61,6 @@ theorem owned_blocks_distinct (ops : List Op) (fail : Oracle) (h : Heap) (hw : H
 
 /-! ### init_fail_leaves_nothing -/
 
-theorem strmInit_fail (op : NodeOp) (w : World) (f : Oracle) (h : Heap)
-    (hr : (strmInit S op w f h).1.1 ≠ OK) :
-    (strmInit S op w f h).1.2.strm = none ∧ (strmInit S op w f h).1.2.ix = w.ix := by
-  unfold strmInit at hr ⊢
-  simp only [run_bind] at hr ⊢
-  cases hc : (strmEnsure S w f h).1 with
-  | none => simp [hc]
-  | some p =>
-    obtain ⟨i, n⟩ := p
-    simp only [hc, run_bind] at hr ⊢
-    by_cases hne : ((op n f (strmEnsure S w f h).2).1.1 != OK) = true
-    · simp only [hne, if_true, run_bind, run_pure]
-      exact ⟨lzmaEnd_strm _ _ _, lzmaEnd_ix _ _ _⟩
-    · simp only [hne] at hr
-      simp at hr
-
-theorem runOp_init_eq (op : Op) (hop : isInit op = true) (w : World) :
-    ∃ nop : NodeOp, runOp S w op = strmInit S nop w := by
-  cases op <;> simp [isInit] at hop <;> exact ⟨_, rfl⟩
-
 /-- A public init function that does not return `LZMA_OK` (in particular `LZMA_MEM_ERROR` after ANY pattern
     of allocation failures) leaves `strm->internal == NULL`, the caller's objects as they were, and NOTHING
     allocated that was not allocated before the call — even if the handle held another coder before. -/
@@ -110,7 +69,7 @@ theorem init_fail_leaves_nothing (op : Op) (hop : isInit op = true) (w : World) 
     (runOp S w op fail h).1.2.strm = none ∧ (runOp S w op fail h).1.2.ix = w.ix
       ∧ Good (runOp S w op fail h).2 (ixListIds w.ix ++ F) := by
   obtain ⟨nop, he⟩ := runOp_init_eq S op hop w
-  have hg' := wsafe_runOp S op w fail h F hg
+  have hg' : Good (runOp S w op fail h).2 ((runOp S w op fail h).1.2.ids ++ F) := wsafe_runOp S op w fail h F hg
   rw [he] at hr hg' ⊢
   obtain ⟨h1, h2⟩ := strmInit_fail S nop w fail h hr
   refine ⟨h1, h2, ?_⟩
@@ -121,8 +80,8 @@ theorem init_fail_leaves_nothing (op : Op) (hop : isInit op = true) (w : World) 
 /-! ### reinit_reuse_sound -/
 
 /-- `lzma_next_coder_init` with the SAME init function: the coder is kept, nothing is freed or allocated. -/
-theorem reinit_same_keeps_coder (i : Nat) (n : Node) (hn : n.init = i) : guard i n = pure (OK, n) := by
-  unfold guard; simp [hn]
+theorem reinit_same_keeps_coder (i : Nat) (n : Node) (hn : n.init = i) : Alloc.guard i n = pure (OK, n) := by
+  unfold Alloc.guard; simp [hn]
 
 /-- ... and the coder struct itself is reused, not reallocated. -/
 theorem reinit_same_reuses_struct (sz : Nat) (fresh : NodeOp) (i self : Nat) (bufs : List (Option Nat)) (data : List Nat)
@@ -133,14 +92,13 @@ theorem reinit_same_reuses_struct (sz : Nat) (fresh : NodeOp) (i self : Nat) (bu
     it owned is freed (exactly once) — and the slot is left as `{init = new, coder = NULL}`. -/
 theorem reinit_different_ends_old_chain (i : Nat) (n : Node) (hn : n.init ≠ i) (fail : Oracle) (h : Heap) (F : List Nat)
     (hg : Good h (n.ids ++ F)) :
-    (guard i n fail h).1 = (OK, Node.null i) ∧ Good (guard i n fail h).2 F := by
+    (Alloc.guard i n fail h).1 = (OK, Node.null i) ∧ Good (Alloc.guard i n fail h).2 F := by
   have hne : (n.init != i) = true := by simpa using hn
-  constructor
-  · unfold guard; simp [hne]
-  · have := safe_guard i n fail h F hg
-    have h2 : (guard i n fail h).1 = (OK, Node.null i) := by unfold guard; simp [hne]
-    rw [h2] at this
-    simpa using this
+  have h2 : (Alloc.guard i n fail h).1 = (OK, Node.null i) := by unfold Alloc.guard; simp [hne]
+  refine ⟨h2, ?_⟩
+  have : Good (Alloc.guard i n fail h).2 ((Alloc.guard i n fail h).1.2.ids ++ F) := safe_guard i n fail h F hg
+  rw [h2] at this
+  simpa using this
 
 /-! ### filters_copy_atomic, index_*_atomic -/
 
@@ -166,16 +124,16 @@ theorem filters_copy_fail_heap_unchanged (sizes : List (Option Nat)) (fail : Ora
 theorem index_append_atomic (i : Index) (fail : Oracle) (h : Heap) (F : List Nat) (hg : Good h (i.ids ++ F))
     (hr : (indexAppend S i fail h).1.1 ≠ OK) :
     (indexAppend S i fail h).1.2 = i ∧ Good (indexAppend S i fail h).2 (i.ids ++ F) := by
-  have hgood := spec_indexAppend S i fail h F hg
+  have hgood : Good (indexAppend S i fail h).2 ((indexAppend S i fail h).1.2.ids ++ F) := spec_indexAppend S i fail h F hg
   have hval : (indexAppend S i fail h).1.2 = i := by
     unfold indexAppend at hr ⊢
     split
-    · rename_i hc; simp [hc] at hr; exact absurd rfl hr
+    · rename_i hc; simp [hc, OK] at hr
     · rename_i hc
       simp only [hc, run_bind] at hr ⊢
       cases ha : (alloc (some (S.indexGroup + i.prealloc * S.indexRecord)) fail h).1 with
       | none => simp [ha]
-      | some g => simp [ha] at hr; exact absurd rfl hr
+      | some g => simp [ha, OK] at hr
   exact ⟨hval, by rw [hval] at hgood; exact hgood⟩
 
 /-- `lzma_index_cat`: the allocation happens before either index is modified: a failing call returns both
@@ -183,7 +141,8 @@ theorem index_append_atomic (i : Index) (fail : Oracle) (h : Heap) (F : List Nat
 theorem index_cat_atomic (d s : Index) (fail : Oracle) (h : Heap) (F : List Nat) (hg : Good h (d.ids ++ s.ids ++ F))
     (e : Ret) (d' s' : Index) (hr : (indexCat S d s fail h).1 = .fail e d' s') :
     d' = d ∧ s' = s ∧ Good (indexCat S d s fail h).2 (d.ids ++ s.ids ++ F) := by
-  have hgood := spec_indexCat S d s fail h F (by simpa using hg)
+  have hgood : Good (indexCat S d s fail h).2 ((indexCat S d s fail h).1.ids ++ F) :=
+    spec_indexCat S d s fail h F (by simpa using hg)
   have hval : d' = d ∧ s' = s := by
     unfold indexCat at hr
     simp only [] at hr
@@ -207,26 +166,6 @@ theorem index_dup_unwinds (src : Index) (fail : Oracle) (h : Heap) (F : List Nat
   simpa using this
 
 /-! ### caller_objects_untouched -/
-
-theorem onRoot_ix (op : NodeOp) (w : World) (f : Oracle) (h : Heap) : (onRoot op w f h).1.2.ix = w.ix := by
-  unfold onRoot
-  cases hs : w.strm with
-  | none => simp
-  | some p => obtain ⟨i, n⟩ := p; simp
-
-theorem strmInit_ix (op : NodeOp) (w : World) (f : Oracle) (h : Heap) : (strmInit S op w f h).1.2.ix = w.ix := by
-  by_cases hr : (strmInit S op w f h).1.1 = OK
-  · unfold strmInit at hr ⊢
-    simp only [run_bind] at hr ⊢
-    cases hc : (strmEnsure S w f h).1 with
-    | none => simp [hc]
-    | some p =>
-      obtain ⟨i, n⟩ := p
-      simp only [hc, run_bind] at hr ⊢
-      by_cases hne : ((op n f (strmEnsure S w f h).2).1.1 != OK) = true
-      · simp only [hne, if_true, run_bind, run_pure]; exact lzmaEnd_ix _ _ _
-      · simp [hne]
-  · exact (strmInit_fail S op w f h hr).2
 
 /-- Calls on the handle (all inits, coding with an encoder, `lzma_filters_update`, `lzma_end`) never touch the
     caller-owned `lzma_index` objects — whether they fail or not. (Filter arrays passed to them are plain
@@ -254,13 +193,14 @@ theorem encoder_update_atomic (c : Chain) (n : Node) (fail : Oracle) (h : Heap) 
   rw [hv] at this
   exact this
 
-/-- full statement: ANY failing update leaves the encoder's own filter-option array as it was -/
-def encoder_update_keeps_options_statement : Prop :=
-  ∀ (S : Sizes) (c : Chain) (i self : Nat) (bufs : List (Option Nat)) (data : List Nat) (opts : List (Option Nat))
-    (ix0 ix1 : Option Index) (s0 s1 : Node) (fail : Oracle) (h : Heap),
-    (streamEncoderUpdate S c (.mk i self bufs data opts ix0 ix1 s0 s1) fail h).1.1 ≠ OK →
+/-- ... and ANY failing update (whatever allocation failed, or an invalid chain) leaves the encoder's own
+    filter-option array, its coder struct and its init function as they were: the encoder stays usable. -/
+theorem encoder_update_keeps_options (c : Chain) (i self : Nat) (bufs : List (Option Nat)) (data : List Nat)
+    (opts : List (Option Nat)) (ix0 ix1 : Option Index) (s0 s1 : Node) (fail : Oracle) (h : Heap)
+    (hr : (streamEncoderUpdate S c (.mk i self bufs data opts ix0 ix1 s0 s1) fail h).1.1 ≠ OK) :
     ∃ bufs' data' ix0' ix1' s0' s1',
-      (streamEncoderUpdate S c (.mk i self bufs data opts ix0 ix1 s0 s1) fail h).1.2 = .mk i self bufs' data' opts ix0' ix1' s0' s1'
+      (streamEncoderUpdate S c (.mk i self bufs data opts ix0 ix1 s0 s1) fail h).1.2 = .mk i self bufs' data' opts ix0' ix1' s0' s1' :=
+  streamEncoderUpdate_fail_keeps S c i self bufs data opts ix0 ix1 s0 s1 fail h hr
 
 /-! ### non-vacuity: concrete histories evaluated by the kernel -/
 
